@@ -200,6 +200,8 @@ impl MemTable {
 			};
 
 			self.insert_into_memtable(&ikey, &val)?;
+			#[cfg(feature = "verif")]
+			crate::verif::yield_sync("memtable.add.entry");
 		}
 
 		// Get the highest sequence number used from the batch
